@@ -17,6 +17,7 @@ import (
 	"crypto/x509"
 	"crypto/x509/pkix"
 	"fmt"
+	"github.com/yandex/pandora/core/aggregator/netsample"
 	"io"
 	"math/big"
 	"net"
@@ -95,12 +96,12 @@ type wireReq struct {
 
 type recServer struct {
 	respSize int
-	ln    net.Listener
-	tls   bool
-	mu    sync.Mutex
-	reqs  []wireReq
-	conns int
-	wg    sync.WaitGroup
+	ln       net.Listener
+	tls      bool
+	mu       sync.Mutex
+	reqs     []wireReq
+	conns    int
+	wg       sync.WaitGroup
 }
 
 var serverCert *tls.Certificate
@@ -184,8 +185,15 @@ func (s *recServer) Close() {
 	s.ln.Close()
 }
 
+// shooter is either a BaseGun built directly or the core.Gun the plugin registry hands out for
+// gun type "http" (kind "http-registry": target given by name, pre-resolved by the registration).
+type shooter struct {
+	shoot func(a core.Ammo)
+	close func() error
+}
+
 type gunSet struct {
-	guns []*phttp.BaseGun
+	guns []shooter
 	aggs []*recAgg
 }
 
@@ -207,13 +215,41 @@ func getGuns(c C09Cell, addr string) (*gunSet, error) {
 	gconf.SSL = c.SSL
 	gconf.Client.Transport.DisableKeepAlives = c.NoKeep
 	gs := &gunSet{}
+	if c.Gun == "http-registry" {
+		_, port, _ := net.SplitHostPort(addr)
+		var h struct {
+			Gun func() (core.Gun, error) `config:"gun"`
+		}
+		conf := map[string]any{"gun": map[string]any{"type": "http", "target": "localhost:" + port, "ssl": c.SSL}}
+		if err := config.DecodeAndValidate(conf, &h); err != nil {
+			return nil, fmt.Errorf("HARNESS: gun config: %v", err)
+		}
+		for i := 0; i < 2; i++ {
+			g, err := h.Gun()
+			if err != nil {
+				return nil, fmt.Errorf("HARNESS: gun: %v", err)
+			}
+			a := &recAgg{}
+			if err := g.Bind(netsample.WrapAggregator(a), gunDeps(i)); err != nil {
+				return nil, fmt.Errorf("HARNESS: bind: %v", err)
+			}
+			cl := func() error { return nil }
+			if c, ok := g.(io.Closer); ok {
+				cl = c.Close
+			}
+			gs.guns = append(gs.guns, shooter{shoot: g.Shoot, close: cl})
+			gs.aggs = append(gs.aggs, a)
+		}
+		gunSets[key] = gs
+		return gs, nil
+	}
 	for i := 0; i < 2; i++ {
 		g := phttp.NewHTTP1Gun(gconf, nil)
 		a := &recAgg{}
 		if err := g.Bind(a, gunDeps(i)); err != nil {
 			return nil, fmt.Errorf("HARNESS: bind: %v", err)
 		}
-		gs.guns = append(gs.guns, g)
+		gs.guns = append(gs.guns, shooter{shoot: func(am core.Ammo) { g.Shoot(am.(phttp.Ammo)) }, close: g.Close})
 		gs.aggs = append(gs.aggs, a)
 	}
 	gunSets[key] = gs
@@ -250,7 +286,7 @@ type C09Cell struct {
 	SSL       bool     `json:"ssl"`
 	NoKeep    bool     `json:"no_keepalive"`
 	Instances int      `json:"instances"`
-	Gun       string   `json:"gun"` // http | connect
+	Gun       string   `json:"gun"`                 // http | connect
 	RespSize  int      `json:"resp_size,omitempty"` // size of the target's response body (0: 2 bytes)
 	Passes    int      `json:"passes,omitempty"`    // 0: one pass
 	Preload   bool     `json:"preload,omitempty"`
@@ -353,7 +389,7 @@ func runC09Cell(c C09Cell) (verr error) {
 	var panics []string
 	for i := range guns {
 		wg.Add(1)
-		go func(g *phttp.BaseGun) {
+		go func(g shooter) {
 			defer wg.Done()
 			defer func() {
 				if r := recover(); r != nil {
@@ -367,7 +403,7 @@ func runC09Cell(c C09Cell) (verr error) {
 				if !ok {
 					return
 				}
-				g.Shoot(a.(phttp.Ammo))
+				g.shoot(a)
 				p.Release(a)
 			}
 		}(guns[i])
@@ -377,7 +413,7 @@ func runC09Cell(c C09Cell) (verr error) {
 	<-runErr
 	if c.NoKeep {
 		for _, g := range guns {
-			_ = g.Close()
+			_ = g.close()
 		}
 	}
 	if len(panics) > 0 {
@@ -438,7 +474,15 @@ func runC09Cell(c C09Cell) (verr error) {
 		}
 		wantW[i] = w
 	}
+	_, port, _ := net.SplitHostPort(addr)
 	for i := range gotW {
+		if c.Gun == "http-registry" {
+			// the configured target is the name: that, not the address it resolves to, is the default Host
+			if gotW[i].Host == "localhost:"+port || gotW[i].Host == "localhost" {
+				gotW[i].Host = "<target>"
+			}
+			continue
+		}
 		if gotW[i].Host == host || gotW[i].Host == addr {
 			gotW[i].Host = "<target>"
 		}
@@ -472,7 +516,8 @@ func runC09Cell(c C09Cell) (verr error) {
 		if conns != len(want) {
 			return fmt.Errorf("CONNS: keep-alive disabled: %d connections for %d requests", conns, len(want))
 		}
-	} else if conns > c.Instances {
+	} else if conns > c.Instances && c.Gun != "http-registry" {
+		// (the registration's pre-resolve dials the target once itself: connection counts are judged on directly built guns)
 		return fmt.Errorf("CONNS: keep-alive enabled: %d connections from %d instances (%d requests)", conns, c.Instances, len(want))
 	}
 	return nil
@@ -544,6 +589,9 @@ func runC09(spec *hutil.Spec, out *hutil.Out) {
 								}{{2, false}, {1, true}, {3, true}} {
 									cells = append(cells, C09Cell{File: f, Option: opt, Instances: inst, Gun: "http", Passes: pp.n, Preload: pp.pre})
 								}
+							}
+							if !nk && inst == 1 && oi < 2 && entries(f.Items) == 1 {
+								cells = append(cells, C09Cell{File: f, Option: opt, SSL: ssl, Instances: 1, Gun: "http-registry"})
 							}
 							if bigCount++; !nk && oi == 0 && entries(f.Items) >= 2 && bigCount%11 == 0 {
 								// a target with large responses must not cost the instance its connection
